@@ -15,6 +15,7 @@ writing ONE struct parameter (the value given to the driver is the payload merge
 in served order); (5) `run_wire`: generated histories as request lines through the real TCPRequestHandler.
 """
 import json
+import logging
 import os
 import random
 import zlib
@@ -543,10 +544,12 @@ def rng_choice(box, items):
     return items[box.rng.randrange(len(items))]
 
 
-def mk_layer_class(box, clsname, bases, layer, known):
-    """known: attr -> dtspec of parameters visible so far (for limits and result generation)"""
+def mk_layer_class(box, clsname, bases, layer, known, extra=None):
+    """known: attr -> dtspec of parameters visible so far (for limits and result generation);
+    extra: further entries of the class body (run_forward: the helper parameter and its drivers), in front of the rest"""
     from frappy.params import Parameter, Command, Limit
     attrs = {'__module__': 'verifgen'}
+    attrs.update(extra or {})
     for p in layer['params']:
         a = p['attr']
         if p.get('removed'):
@@ -2149,6 +2152,470 @@ def run_wire(ctx, res, big):
 
 
 # ----------------------------------------------------------------------------------------
+# write paths that forward: parameters generated by helper classes (model Node/Forward.lean)
+#   StructParam, struct layout   change of a MEMBER -> generated write_<member> -> write_<struct> (driver)
+#   StructParam, member layout   change of the STRUCT -> generated write_<struct> -> write_<member> (drivers), one by one
+#   FloatEnumParam               change of the float -> generated write_<name> -> write_<name>_idx (driver or none)
+# with check_ hooks and Limit parameters on every parameter of the path, and histories that move the limits
+# ----------------------------------------------------------------------------------------
+FSEP, KVSEP = '\x02', '\x03'
+FWD_LABELS = [(['1V', '10V', '100V'], 'V'), (['500uV', '20mV', '1V'], 'V'), (['1mA', '3mA', '10mA', '30mA'], 'A'),
+              ([(2, '5K', 5.0), (5, '50K', 50.0), '500K'], 'K')]
+FWD_SCRIPTS = [('echo', 76), ('raise_secop', 9), ('raise_other', 7), ('value_invalid', 8)]
+FWD_LAYOUT = {'A': 'struct-layout', 'B': 'member-layout', 'F': 'float-enum'}
+
+
+def fcanon(v):
+    """canon, except that a struct value is written `d<2>key<3>value<2>key<3>value` (keys sorted) so that the Lean side
+    can take a member out / put one in itself"""
+    if isinstance(v, dict):
+        return FSEP.join(['d'] + ['%s%s%s' % (k, KVSEP, canon(x)) for k, x in sorted(v.items())])
+    return canon(v)
+
+
+def fres(r):
+    return ['ok', fcanon(r[1])] if r[0] == 'ok' else r
+
+
+def fwd_names(case):
+    """-> (attribute of the helper parameter, {member key: attribute} | None, index attribute | None)"""
+    if case['kind'] == 'F':
+        return case['name'], None, case['name'] + '_idx'
+    return case['name'], {k: case['prefix'] + k for k, _ in case['members']}, None
+
+
+def fwd_bodies(case):
+    """what the class has under write_<attr>, as the helper classes document it (rows for the model)"""
+    name, members, idx = fwd_names(case)
+    if case['kind'] == 'A':
+        rows = [[name, 'driver']] + [[a, ['toStruct', name, k]] for k, a in members.items()]
+    elif case['kind'] == 'B':
+        rows = [[name, ['toMembers', [[k, a] for k, a in members.items()]]]] + [[a, 'driver'] for a in members.values()]
+    else:
+        rows = [[name, ['toIndex', idx]]] + ([[idx, 'driver']] if case['idx_write'] else [])
+    return [['m1'] + r for r in rows]
+
+
+def gen_fwd_case(seed):
+    rng = random.Random(seed)
+    kind = rng.choice(['A', 'A', 'A', 'B', 'B', 'F'])
+    nlayers = rng.randint(2, 3)
+    layers = [{'params': [], 'hooks': [], 'commands': []} for _ in range(nlayers)]
+    case = {'seed': seed, 'kind': kind, 'name': rng.choice(['ctrl', 'pars', 'vr']), 'layers': layers, 'cfg': {}}
+    numeric = {}         # attr -> dtspec of the parameters that can carry limits
+    if kind == 'F':
+        case['labels'], case['unit'] = rng.choice(FWD_LABELS)
+        case['idx_write'] = rng.random() < 0.7
+        from frappy.extparams import FloatEnumParam
+        vd = FloatEnumParam('x', [tuple(e) if isinstance(e, list) else e for e in case['labels']], case['unit']).valuedict
+        numeric[case['name']] = ['floatr', min(vd.values()), max(vd.values())]
+        case['indices'] = sorted(vd)
+        targets = [case['name'], case['name'] + '_idx']
+    else:
+        keys = rng.sample(['p', 'i', 'd', 'x'], rng.randint(2, 3))
+        case['prefix'] = rng.choice(['pid_', 'c_', ''])
+        case['members'] = [[k, gen_dtspec(rng, numeric=True) if rng.random() < 0.8 else gen_dtspec(rng, depth=2)] for k in keys]
+        for k, dts in case['members']:
+            if dts[0] in ('floatr', 'intr', 'float', 'scaled', 'int'):
+                numeric[case['prefix'] + k] = dts
+        targets = [case['name']] + [case['prefix'] + k for k in keys]
+    # limits: declared by a derived class (frappy refuses a Limit of a member in the class that creates the member)
+    for attr, dts in sorted(numeric.items()):
+        if rng.random() < 0.6:
+            for post in rng.choice([['max'], ['min'], ['min', 'max'], ['limits'], ['limits', 'max']]):
+                layers[rng.randrange(1, nlayers)]['params'].append(
+                    {'attr': attr + '_' + post, 'limit': attr, 'export': True, 'readonly': False})
+                lo, hi = fwd_bounds(rng, dts)
+                case['cfg'][attr + '_' + post] = {'value': [lo, hi] if post == 'limits' else lo if post == 'min' else hi}
+    case['numeric'] = numeric
+    for attr in targets:
+        for _ in range(rng.choice([0, 1, 1, 1, 2])):
+            layers[rng.randrange(nlayers)]['hooks'].append(
+                {'attr': attr, 'kind': rng.choice(['range_some', 'range_some', 'range_some', 'pass', 'stop_some', 'hw_some', 'crash_some'])})
+    for lay in layers:       # one check_<attr> per class
+        seen = set()
+        lay['hooks'] = [h for h in lay['hooks'] if not (h['attr'] in seen or seen.add(h['attr']))]
+    case['steps'] = gen_fwd_steps(rng, case, rng.randint(20, 36))
+    return case
+
+
+def fwd_bounds(rng, dts):
+    """two values of the datatype, the lower first (where the limits of a numeric parameter start)"""
+    if dts[0] in ('floatr', 'intr'):
+        lo, hi = dts[1], dts[2]
+    elif dts[0] == 'scaled':
+        lo, hi = dts[2], dts[3]
+    else:
+        lo, hi = -100, 1000
+    a, b = sorted([lo + (hi - lo) * rng.choice([0, 0.1, 0.25, 0.5]), lo + (hi - lo) * rng.choice([0.5, 0.75, 0.9, 1])])
+    if dts[0] in ('intr', 'int'):
+        a, b = int(a), int(b)
+    return a, b
+
+
+def gen_fwd_steps(rng, case, nsteps):
+    name, members, idx = fwd_names(case)
+    numeric = case['numeric']
+    limits = [p['attr'] for lay in case['layers'] for p in lay['params']]
+    steps = []
+
+    def near(attr, dts):
+        """a payload for a numeric parameter: anything the datatype generator gives, or something around its limits"""
+        lims = [case['cfg'][attr + '_' + post]['value'] for post in ('min', 'max', 'limits') if attr + '_' + post in case['cfg']]
+        flat = [x for l in lims for x in (l if isinstance(l, list) else [l])]
+        if flat and rng.random() < 0.5:
+            b = rng.choice(flat)
+            return rng.choice([b, b + 1, b - 1, b + 0.5, b - 0.25]) if dts[0] not in ('intr', 'int') else rng.choice([b, b + 1, b - 1])
+        return gen_payload(rng, dts)[0]
+
+    for _ in range(nsteps):
+        r = rng.random()
+        script = rng.choices([k for k, _ in FWD_SCRIPTS], [w for _, w in FWD_SCRIPTS])[0]
+        if r < 0.08:
+            attr = rng.choice([name] + list((members or {idx: idx}).values()))
+            steps.append({'kind': 'read', 'spec': 'm1:_' + attr, 'data': None, 'script': script, 'via': 'read'})
+        elif r < 0.25 and limits:
+            attr = rng.choice(limits)
+            dts = numeric[attr.rpartition('_')[0]]
+            if attr.endswith('_limits'):
+                a, b = fwd_bounds(rng, dts)
+                data = rng.choice([[a, b], [a, b], [b, a], [a], 'x'])
+            else:
+                data = rng.choice([fwd_bounds(rng, dts)[rng.randrange(2)], gen_payload(rng, dts)[0]])
+            steps.append({'kind': 'change', 'spec': 'm1:_' + attr, 'data': data, 'script': script, 'via': 'limit'})
+        elif case['kind'] == 'F':
+            if rng.random() < 0.65:
+                dts = numeric[name]
+                data = rng.choice([near(name, dts), dts[1] + (dts[2] - dts[1]) * rng.random() ** 3])
+                steps.append({'kind': 'change', 'spec': 'm1:_' + name, 'data': data, 'script': script, 'via': 'float'})
+            else:
+                data = rng.choice(case['indices'] + case['indices'] + [99, 'nope', None, 1.5])
+                steps.append({'kind': 'change', 'spec': 'm1:_' + idx, 'data': data, 'script': script, 'via': 'index'})
+        elif rng.random() < (0.6 if case['kind'] == 'A' else 0.35):
+            k, dts = rng.choice(case['members'])
+            attr = members[k]
+            data = near(attr, dts) if attr in numeric else gen_payload(rng, dts)[0]
+            steps.append({'kind': 'change', 'spec': 'm1:_' + attr, 'data': data, 'script': script, 'via': 'member'})
+        else:
+            data = {k: (near(members[k], dts) if members[k] in numeric and rng.random() < 0.7 else gen_valid(rng, dts))
+                    for k, dts in case['members']}
+            c = rng.random()
+            if c < 0.3:           # partial struct: merged into the current value
+                for k in rng.sample(sorted(data), rng.randint(1, len(data) - 1)):
+                    del data[k]
+            elif c < 0.4:
+                data = gen_payload(rng, ['struct', case['members'], []])[0]
+            steps.append({'kind': 'change', 'spec': 'm1:_' + name, 'data': data, 'script': script, 'via': 'struct'})
+    return steps
+
+
+def fwd_behave(box, modobj, attr, what, value):
+    """scripted driver of run_forward: a piece of hardware that keeps what it was given ('echo'), or fails"""
+    from frappy.errors import HardwareError
+    kind = box.script['kind']
+    if kind == 'raise_secop':
+        raise HardwareError('hw')
+    if kind == 'raise_other':
+        raise ZeroDivisionError('division')
+    if kind == 'value_invalid':
+        return 'junk'
+    if what == 'write':
+        box.hw[attr] = value
+        return None
+    return box.hw[attr] if attr in box.hw else getattr(modobj, attr)
+
+
+def build_fwd_node(case):
+    """-> (Node, Box, module class); the class bodies come from the plain-data case"""
+    import frappy.modules as fm
+    from frappy.params import Parameter
+    from frappy.extparams import StructParam, FloatEnumParam
+    from vlib.node import Node
+    box = Box()
+    box.hw = {}
+    _clscount[0] += 1
+    name, members, idx = fwd_names(case)
+    extra, drivers, known = {}, [], {}
+    if case['kind'] == 'F':
+        extra[name] = FloatEnumParam('float enum', [tuple(e) if isinstance(e, list) else e for e in case['labels']], case['unit'])
+        drivers = [(idx, 'write')] if case['idx_write'] else []
+    else:
+        extra[name] = StructParam('struct', {k: Parameter('member ' + k, mk_dtype(dts)) for k, dts in case['members']},
+                                  case['prefix'], readonly=False)
+        drivers = [(name, 'read'), (name, 'write')] if case['kind'] == 'A' else \
+            [(a, w) for a in members.values() for w in ('read', 'write')]
+    known.update(case['numeric'])
+    for attr, what in drivers:
+        if what == 'write':
+            def f(self, value, attr=attr):
+                box.log.append(['write', self.name, attr, fcanon(value)])
+                return fwd_behave(box, self, attr, 'write', value)
+        else:
+            def f(self, attr=attr):
+                box.log.append(['read', self.name, attr])
+                return fwd_behave(box, self, attr, 'read', None)
+        f.__name__ = what + '_' + attr
+        extra[f.__name__] = f
+    cls = None
+    for i, layer in enumerate(case['layers']):
+        cname = 'Fwd%s%d' % (chr(ord('A') + i), _clscount[0])
+        cls = mk_layer_class(box, cname, (fm.Module,) if cls is None else (cls,), layer, known, extra=extra if i == 0 else None)
+        box.layerspec[cls] = layer
+    cfg = {'m1': dict({'cls': cls, 'description': 'generated module'},
+                      **{a: {'value': tuple(v['value']) if isinstance(v['value'], list) else v['value']} for a, v in case['cfg'].items()})}
+    return Node(cfg, omit_unchanged_within=0), box, cls
+
+
+def fwd_cache_rows(node):
+    return [[m, attr, fcanon(pobj.value), None if pobj.readerror is None else pobj.readerror.name]
+            for m, modobj in node.secnode.modules.items() for attr, pobj in modobj.parameters.items()]
+
+
+def fwd_visit(orc, box, case, modobj, mycls, attr, v, depth=0):
+    """oracle rows for parameter `attr` being given `v` by a write wrapper, and for whoever its generated write function
+    hands the value on to (the REAL datatype / hook / comparison results; the structure itself is decided by the model)"""
+    m = modobj.name
+    pobj = modobj.parameters.get(attr)
+    if pobj is None or depth > 4:
+        return
+    dt = pobj.datatype
+    r2 = oracle_call(dt.validate, v)
+    orc.put('reval', [m, attr, fcanon(v)], fres(r2))
+    orc.put('reval', [m, attr, canon('junk')], fres(oracle_call(dt.validate, 'junk')))
+    for pos, b in enumerate(mycls.__mro__):
+        hid = getattr(b.__dict__.get('check_' + attr), '_hook_id', None)
+        if hid is not None:
+            hr = hook_result(box.hooks[hid], v)
+            orc.put('chk', [m, attr, pos, fcanon(v)], hr if isinstance(hr, str) else ['raise'] + err_of(hr))
+    lims = []
+    for post in ('_limits', '_min', '_max'):
+        lp = modobj.parameters.get(attr + post)
+        if lp is not None and post == '_limits':
+            try:
+                lo, hi = lp.value
+                orc.put('split', [canon(lp.value)], [canon(lo), canon(hi)])
+                lims += [lo, hi]
+            except Exception:
+                pass
+        elif lp is not None:
+            lims.append(lp.value)
+    if lims:
+        cmp_tables(orc, [v] + lims)
+    if r2[0] != 'ok':
+        return
+    w = r2[1]
+    name, members, idx = fwd_names(case)
+    if case['kind'] == 'A' and attr in members.values():
+        key = [k for k, a in members.items() if a == attr][0]
+        merged = dict(modobj.parameters[name].value)
+        merged[key] = w
+        fwd_visit(orc, box, case, modobj, mycls, name, merged, depth + 1)
+    elif case['kind'] == 'B' and attr == name:
+        for k, a in members.items():
+            if k in w:
+                fwd_visit(orc, box, case, modobj, mycls, a, w[k], depth + 1)
+    elif case['kind'] == 'F' and attr == name:
+        vd = pobj.valuedict
+        closest = min(vd, key=lambda i: abs(vd[i] - w))    # trusted here: C18 proves that the generated function picks it
+        orc.put('closest', [m, attr, fcanon(w)], fcanon(closest))
+        fwd_visit(orc, box, case, modobj, mycls, idx, closest, depth + 1)
+
+
+def fwd_run(case, keep=None):
+    """run the REAL code -> record for the Lean side"""
+    from frappy.errors import ProgrammingError, ConfigError
+    from frappy.params import Parameter
+    try:
+        node, box, mycls = build_fwd_node(case)
+    except (ProgrammingError, ConfigError) as e:
+        return {'errors': ['class creation: %r' % e]}
+    if node.errors or 'm1' not in node.secnode.modules:
+        return {'errors': list(node.errors) or ['module missing']}
+    modobj = node.secnode.modules['m1']
+    conn = node.connect()
+    node.request(conn, 'activate', None, None)
+    nodespec = {'modules': [{'name': 'm1', 'base': 'Module', 'layers': case['layers'], 'cfg': case['cfg'], 'exported': True}]}
+    nj = node_json(node, nodespec, {'m1': mycls}, box)
+    for a in nj['modules'][0]['accs']:
+        if a['kind'] == 'param':
+            a['value'] = fcanon(modobj.parameters[a['attr']].value)
+    orc = Oracle()
+    orc.t['closest'] = {}
+    steps = case['steps'] if keep is None else [case['steps'][i] for i in keep]
+    out = []
+    for st in steps:
+        box.log = []
+        box.script = {'kind': st['script']}
+        before = fwd_cache_rows(node)
+        if st['kind'] == 'change':
+            _, cands = candidates(node, 'm1', st['spec'].split(':', 1)[1], 'target')
+            for attr, pobj in cands:
+                if isinstance(pobj, Parameter):
+                    dt, cur = pobj.datatype, pobj.value
+                    r = oracle_call(lambda: datainfo_validate(dt)(dt.import_value(st['data']), previous=cur))
+                    orc.put('accept', [modobj.name, attr, canonj(st['data']), fcanon(cur)], fres(r))
+                    if r[0] == 'ok':
+                        if is_limits_pair(dt):
+                            try:
+                                lo, hi = r[1]
+                                orc.put('split', [canon(r[1])], [canon(lo), canon(hi)])
+                                cmp_tables(orc, [lo, hi])
+                            except Exception:
+                                pass
+                        fwd_visit(orc, box, case, modobj, mycls, attr, r[1])
+        conn.msgs.clear()
+        reply = node.request(conn, st['kind'], st['spec'], st['data'])
+        sk = st['script']
+        drv = ['raise'] + err_of(_fwd_exc(sk)) if sk.startswith('raise') else ['value', canon('junk')] if sk == 'value_invalid' else 'none'
+        obs = {'reply': reply_obs(reply), 'calls': [list(c) for c in box.log], 'emits': [msg_obs(x) for x in conn.msgs],
+               'before': before, 'after': fwd_cache_rows(node)}
+        out.append({'req': [st['kind'], st['spec'], canonj(st['data']) if st['kind'] == 'change' else False], 'drv': drv,
+                    'obs': obs, 'via': st['via'], 'pyclass': reply[2][1] if reply and reply[0].startswith('error_') else None})
+    registry = logging.Logger.manager.loggerDict
+    for k in [k for k in registry if k == node.root.name or k.startswith(node.root.name + '.')]:
+        del registry[k]
+    return {'errors': [], 'node': nj, 'steps': out, 'oracle': orc.json(), 'bodies': fwd_bodies(case)}
+
+
+def _fwd_exc(sk):
+    from frappy.errors import HardwareError
+    return HardwareError('hw') if sk == 'raise_secop' else ZeroDivisionError('division')
+
+
+def fwd_requests(rec):
+    base = {'p': PID, 'node': rec['node'], 'oracle': rec['oracle'], 'bodies': rec['bodies']}
+    return [dict(base, k='fwd', steps=[{'req': s['req'], 'drv': s['drv'], 'obs': s['obs']} for s in rec['steps']]),
+            dict(base, k='judge_fwd', steps=[{'req': s['req'], 'obs': s['obs']} for s in rec['steps']])]
+
+
+def fwd_compare(model, rec):
+    """first request for which the model of the write path and the implementation differ: the calls of driver-written write
+    methods, and the error class where the model ends with one (after the driver calls the model does not go on: read back
+    and call-backs are C18's)"""
+    for i, (mo, st) in enumerate(zip(model['outs'], rec['steps'])):
+        if mo is None:
+            continue
+        writes = [c for c in st['obs']['calls'] if c[0] == 'write']
+        if mo['exhausted']:
+            return {'step': i, 'field': 'depth', 'model': 'recursion bound hit', 'impl': writes, 'req': st['req']}
+        if mo['calls'] != writes:
+            return {'step': i, 'field': 'calls', 'model': mo['calls'], 'impl': writes, 'req': st['req']}
+        if mo['err'] is not None and st['obs']['reply'] != ['error', mo['err']]:
+            return {'step': i, 'field': 'reply', 'model': ['error', mo['err']], 'impl': st['obs']['reply'], 'req': st['req']}
+    return None
+
+
+def fwd_sig(case, rec, idx, why, where=None):
+    """label of a violation (the verdict is the monitor's): layout, how the request came in, what was observed, what the
+    specification wanted.  Two shapes get a name of their own (known_findings): the refusal itself is the fitting one, but
+    (a) only the driver-written write methods that come BEFORE the objecting parameter on the path were called, or
+    (b) no driver was called, yet the struct and its members were announced again"""
+    st = rec['steps'][idx]
+    obs = st['obs']
+    writes = [c for c in obs['calls'] if c[0] == 'write']
+    called = 'call' if writes else 'nocall'
+    rep = obs['reply'][0] if obs['reply'][0] != 'error' else obs['reply'][1]
+    want = 'allow' if why.startswith('allow') else 'refuse:' + why.split(' ')[1]
+    head = 'C04:forward:%s:via-%s:' % (FWD_LAYOUT[case['kind']], st['via'])
+    if want.startswith('refuse') and obs['reply'][0] == 'error' and where and writes and len(writes) <= where[1]:
+        return head + 'parameters-before-the-objecting-one-were-written'
+    name, members, _ = fwd_names(case)
+    if want == 'refuse:' + rep and not obs['calls'] and obs['emits'] and members and all(
+            e[0] == 'update' and e[2] in ['_' + name] + ['_' + a for a in members.values()] for e in obs['emits']):
+        return head + 'refused-but-struct-and-members-announced-again'
+    return head + '%s:%s:want-%s' % (called, rep, want)
+
+
+def run_forward(ctx, res, big):
+    ncases = ctx.budget(150, 1500)
+    reported = set()
+    ndis = [0]
+    shrunk = [0]
+    CHUNK = 50
+    for start in range(0, ncases, CHUNK):
+        runs, reqs = [], []
+        for _ in range(start, min(ncases, start + CHUNK)):
+            seed = ctx.rng.randrange(1 << 40)
+            case = gen_fwd_case(seed)
+            rec = fwd_run(case)
+            if rec['errors']:
+                res.count('forward.node-rejected-by-frappy')
+                if len(res.notes) < 3:
+                    res.notes.append('forward: generated class rejected by frappy: %s' % rec['errors'][:2])
+                continue
+            runs.append((case, rec))
+            reqs += fwd_requests(rec)
+        answers = ctx.driver.batch(reqs)
+        for j, (case, rec) in enumerate(runs):
+            model, judge = answers[2 * j], answers[2 * j + 1]
+            for a in (model, judge):
+                if 'driver_error' in a:
+                    raise RuntimeError(f'driver error: {a["driver_error"]} (forward case {case["seed"]})')
+            lay = FWD_LAYOUT[case['kind']]
+            res.evaluations += len(rec['steps'])
+            res.traces += len(rec['steps'])
+            res.count('forward.cases.' + lay)
+            kinds = set()
+            for st, mo in zip(rec['steps'], model['outs']):
+                c = 'forward.%s.via-%s.%s' % (lay, st['via'], classify(st).split('.', 1)[1])
+                res.count(c)
+                writes = [x for x in st['obs']['calls'] if x[0] == 'write']
+                if writes and st['via'] in ('member', 'float', 'struct'):
+                    res.count('forward.%s.via-%s.driver-written-write-called' % (lay, st['via']), len(writes))
+                    kinds.add('called')
+                if st['obs']['reply'][0] == 'error' and not writes and st['via'] in ('member', 'float', 'struct'):
+                    kinds.add('refused')
+            res.count('forward.oracle.hook-results.raise', sum(1 for r in rec['oracle']['chk'] if isinstance(r[-1], list)))
+            res.count('forward.oracle.limit-comparisons', len(rec['oracle']['le']))
+            if kinds == {'called', 'refused'} and (rec['oracle']['chk'] or rec['oracle']['le']):
+                res.nontriv(['forward', case['seed']])
+            if model.get('wf') is False:
+                res.count('forward.node.NOT-well-formed')
+            if ctx.model_ok:
+                d = fwd_compare(model, rec)
+                if d is not None:
+                    ndis[0] += 1
+                    if ndis[0] <= 3:
+                        res.disagreements.append({'case': {'forward': {'seed': case['seed']}, 'step': d['step']},
+                                                  'model': {d['field']: d['model']}, 'impl': {d['field']: d['impl'], 'req': d['req']}})
+            if judge['bad'] is not None:
+                idx, why, where = judge['bad']
+                sig = fwd_sig(case, rec, idx, why, where)
+                if sig in reported:
+                    continue
+                reported.add(sig)
+                keep = list(range(idx + 1))
+                if shrunk[0] < 3:
+                    shrunk[0] += 1
+
+                    def fails(sub, case=case, sig=sig):
+                        r = fwd_run(case, sub)
+                        if r['errors']:
+                            return False
+                        a = ctx.driver.batch([fwd_requests(r)[1]])[0]
+                        return a.get('bad') is not None and fwd_sig(case, r, *a['bad']) == sig
+                    keep = ddmin(keep, fails, max_tests=80)
+                st = rec['steps'][idx]
+                res.violations.append({
+                    'sig': sig,
+                    'what': f'({lay}: {fwd_what(case)}) request {st["req"]} answered {st["obs"]["reply"]} with driver calls '
+                            f'{[[x.replace(FSEP, " ").replace(KVSEP, "=") for x in c] for c in st["obs"]["calls"]]}; '
+                            f'the specification of the write path says: {why.replace(FSEP, " ").replace(KVSEP, "=")}',
+                    'case': {'forward': {'seed': case['seed']}, 'keep': keep},
+                    'detail': {'step': idx, 'obs': {k: st['obs'][k] for k in ('reply', 'calls', 'emits')}}})
+    res.count('forward.disagreements', ndis[0])
+
+
+def fwd_what(case):
+    name, members, idx = fwd_names(case)
+    hooks = sorted({h['attr'] for lay in case['layers'] for h in lay['hooks']})
+    lims = sorted(case['cfg'])
+    return '%s %s, check_ hooks on %s, limits %s' % (
+        'StructParam' if members else 'FloatEnumParam', name + (' with members ' + ', '.join(members.values()) if members else ''),
+        ', '.join(hooks) or 'nothing', ', '.join(lims) or 'none')
+
+
+# ----------------------------------------------------------------------------------------
 def gen_case(seed, big):
     rng = random.Random(seed)
     nodespec = gen_nodespec(rng, big)
@@ -2353,6 +2820,7 @@ def run(ctx):
     run_merging(ctx, res, big)
     run_shared(ctx, res, big)
     run_wire(ctx, res, big)
+    run_forward(ctx, res, big)
     res.count('cases', state['ncases'])
     skipped = state['skipped']
     if skipped:
@@ -2402,6 +2870,25 @@ def replay(ctx, rp):
         d = compare(model, rec) if 'outs' in model else None
         print('correspondence:', 'agree' if d is None else d)
         return 0 if serial.get('ok') and judge.get('bad') is None and d is None else 1
+    if 'forward' in c:
+        case = gen_fwd_case(c['forward']['seed'])
+        rec = fwd_run(case, c.get('keep'))
+        if rec['errors']:
+            print('class rejected:', rec['errors'])
+            return 2
+        show = lambda x: json.dumps(x).replace('\\u0002', ' ').replace('\\u0003', '=')
+        print('module  :', FWD_LAYOUT[case['kind']] + ':', fwd_what(case))
+        print('bodies  :', rec['bodies'])
+        model, judge = ctx.driver.batch(fwd_requests(rec))
+        for i, st in enumerate(rec['steps']):
+            print(f'[{i}] req   :', st['req'], ' driver script:', st['drv'])
+            print('     impl  :', st['obs']['reply'], 'calls', show(st['obs']['calls']), 'emits', st['obs']['emits'])
+            if 'outs' in model and model['outs'][i] is not None:
+                print('     model :', show(model['outs'][i]))
+        print('judge :', show(judge))
+        d = fwd_compare(model, rec) if 'outs' in model else None
+        print('correspondence:', 'agree' if d is None else show(d))
+        return 0 if judge.get('bad') is None and d is None else 1
     if 'merging' in c:
         from vlib.sched import ReplayThenDefault
         s, obs = merge_run(c['merging'], ReplayThenDefault(c['schedule']))
